@@ -272,3 +272,112 @@ Proof.
       eapply Forall_impl; [|exact HF]. intros v Hv l Hl. specialize (Hle l Hl).
       specialize (Hv x eq_refl). eapply N.le_trans; eassumption.
 Qed.
+
+(* ---------------------------------------------------------------- a whole slice (SimTick) *)
+Inductive TrajL : list hook -> list (list (list (N * N)) * list (list (N * N) * bool)) -> list hook -> Prop :=
+| TL_nil hs : TrajL hs [] hs
+| TL_cons hs arrs hs' outs r hs'' :
+    ForallS Step (push_all hs arrs) hs' outs -> TrajL hs' r hs'' ->
+    TrajL hs ((arrs, outs) :: r) hs''.
+
+Lemma push_idle_kind h arr : idle (push h arr) = idle h /\ slice_kind (push h arr) = slice_kind h.
+Proof. destruct h; split; reflexivity. Qed.
+
+Lemma push_all_idle_kind : forall hs arrs,
+  forallb idle (push_all hs arrs) = forallb idle hs /\
+  forallb slice_kind (push_all hs arrs) = forallb slice_kind hs.
+Proof.
+  induction hs as [|h hs IH]; intros arrs; [destruct arrs; split; reflexivity|].
+  destruct arrs as [|a arrs]; [split; reflexivity|]. cbn [push_all forallb].
+  destruct (push_idle_kind h a) as [-> ->]. destruct (IH arrs) as [-> ->]. split; reflexivity.
+Qed.
+
+Lemma ForallS_idle_kind : forall hs hs' outs, ForallS Step hs hs' outs ->
+  forallb slice_kind hs = true -> forallb idle hs' = true /\ forallb slice_kind hs' = true.
+Proof.
+  induction 1 as [|h h' o b hs hs' os HS HF IH]; intros Hk; [split; reflexivity|].
+  cbn [forallb] in *. apply andb_true_iff in Hk. destruct Hk as [Hk1 Hk2].
+  destruct (Step_idle_kind _ _ _ HS Hk1) as [-> ->]. destruct (IH Hk2) as [-> ->]. split; reflexivity.
+Qed.
+
+(* C31 "all hooks of one slice are taken at the same point": in every tick of a slice run,
+   run_hooks gives EVERY hook of the slice exactly one decide-and-release Step *)
+Theorem run_sim_slices_traj : forall sc hs outss hsf,
+  run_sim_slices hs sc = Ok (outss, hsf) ->
+  forallb idle hs = true -> forallb slice_kind hs = true ->
+  TrajL hs (combine (map fst sc) outss) hsf.
+Proof.
+  induction sc as [|[arrs ds] r IH]; intros hs outss hsf H Hi Hk; cbn [run_sim_slices] in H.
+  - inversion H; subst. constructor.
+  - inv_bind H as [[hs' outs] rest]. inv_bind H as [outss' hsf']. inversion H; subst; clear H.
+    destruct (push_all_idle_kind hs arrs) as [Pi Pk].
+    assert (HS : ForallS Step (push_all hs arrs) hs' outs).
+    { eapply run_hooks_steps; [exact E | rewrite Pi; exact Hi | rewrite Pk; exact Hk]. }
+    destruct (ForallS_idle_kind _ _ _ HS) as [Hi' Hk']; [rewrite Pk; exact Hk|].
+    cbn [map fst combine]. econstructor; [exact HS | eapply IH; eauto].
+Qed.
+
+(* the first hook's column of a slice run is that hook's own trajectory, the other columns
+   are the slice run of the other hooks *)
+Theorem TrajL_head_tail : forall trl h hs hsf,
+  TrajL (h :: hs) trl hsf ->
+  Forall (fun ao => fst ao <> []) trl ->
+  exists h' hs', hsf = h' :: hs' /\
+    Traj h (map (fun ao => (hd [] (fst ao), fst (hd ([], false) (snd ao)))) trl) h' /\
+    TrajL hs (map (fun ao => (tl (fst ao), tl (snd ao))) trl) hs'.
+Proof.
+  induction trl as [|[arrs outs] r IH]; intros h hs hsf HT HF.
+  - inversion HT; subst. exists h, hs. repeat split; constructor.
+  - inversion HT as [|x1 x2 hs1 x4 x5 x6 HS HT']; subst. inversion HF as [|x y Hne HF']; subst.
+    cbn [fst] in Hne. destruct arrs as [|a arrs]; [contradiction|]. cbn [push_all] in HS.
+    inversion HS as [|y1 h1 o b y5 hs1' os HS1 HSr]; subst.
+    destruct (IH _ _ _ HT' HF') as (h' & hs' & -> & HTr & HTL).
+    exists h', hs'. split; [reflexivity|]. split.
+    + cbn [map fst snd hd]. econstructor; eauto.
+    + cbn [map fst snd tl]. econstructor; eauto.
+Qed.
+
+(* ---------------------------------------------------------------- C34 over the simulator *)
+Lemma sim_astep_applied : forall s t o s', sim_astep s t = Ok (o, s') ->
+  sa_applied s' = sa_applied s ++ fst o /\
+  (forall r snap, In (r, snap) (snd o) -> snap = sa_applied s').
+Proof.
+  intros s t o s' H. unfold sim_astep in H. inv_bind H as [[hs' outs] rest].
+  destruct outs as [|[wout wf] [|[rout rf] [|]]]; try discriminate.
+  inversion H; subst; clear H. cbn. split; [reflexivity|].
+  intros r snap Hin. apply in_map_iff in Hin. destruct Hin as [x [Hx _]]. inversion Hx; reflexivity.
+Qed.
+
+Lemma run_sim_atomic_incl : forall sc s obs j acks resps r snap,
+  run_sim_atomic s sc = Ok obs ->
+  nth_error obs j = Some (acks, resps) -> In (r, snap) resps -> incl (sa_applied s) snap.
+Proof.
+  induction sc as [|t sc IH]; intros s obs j acks resps r snap H Hn Hin; cbn [run_sim_atomic] in H.
+  - inversion H; subst. destruct j; discriminate.
+  - inv_bind H as [o s']. inv_bind H as os. inversion H; subst; clear H.
+    destruct (sim_astep_applied _ _ _ _ E) as [HA HS]. destruct j as [|j]; cbn [nth_error] in Hn.
+    + injection Hn as Ho. subst o. cbn [fst snd] in *. rewrite (HS _ _ Hin), HA. apply incl_appl, incl_refl.
+    + specialize (IH _ _ _ _ _ _ _ E0 Hn Hin). intros x Hx. apply IH. rewrite HA. apply in_or_app. left; exact Hx.
+Qed.
+
+(* for every arrival / decision script of the unified atomic tick (any hook kinds on the write
+   and read paths): an acknowledgement released in tick i is contained in every atomic
+   snapshot read in a tick j >= i *)
+Theorem sim_ack_implies_read_after_write : forall sc s obs i j acks resps acks' resps' w r snap,
+  run_sim_atomic s sc = Ok obs -> i <= j ->
+  nth_error obs i = Some (acks, resps) -> In w acks ->
+  nth_error obs j = Some (acks', resps') -> In (r, snap) resps' ->
+  In w snap.
+Proof.
+  induction sc as [|t sc IH]; intros s obs i j acks resps acks' resps' w r snap H Hij Hi Hw Hj Hr;
+    cbn [run_sim_atomic] in H.
+  - inversion H; subst. destruct i; discriminate.
+  - inv_bind H as [o s']. inv_bind H as os. inversion H; subst; clear H.
+    destruct (sim_astep_applied _ _ _ _ E) as [HA HS].
+    destruct i as [|i]; cbn [nth_error] in Hi.
+    + injection Hi as Ho. subst o. cbn [fst snd] in *.
+      destruct j as [|j]; cbn [nth_error] in Hj.
+      * injection Hj as Ho1 Ho2. subst acks' resps'. rewrite (HS _ _ Hr), HA. apply in_or_app. right; exact Hw.
+      * apply (run_sim_atomic_incl _ _ _ _ _ _ _ _ E0 Hj Hr). rewrite HA. apply in_or_app. right; exact Hw.
+    + destruct j as [|j]; [lia|]. cbn [nth_error] in Hj. eapply (IH s' os i j); eauto. lia.
+Qed.
